@@ -30,6 +30,7 @@
 //!   uclk  = current value of the controlled clock
 //!   croot = {container key: root name} for every container known so far
 //!   vv    = comparison key for repeated executions of the same schedule (content by value, stack lengths, return value)
+//!   alias = (undo / redo calls only) classes of element ids that carried the same value, in order of creation
 use crate::obs;
 use crate::yata::{panic_msg, World};
 use serde_json::{json, Map as JMap, Value};
@@ -257,7 +258,13 @@ pub fn after_step(w: &mut World, _st: &Value, ev: &mut Value) {
             e.push(*id);
         }
     }
-    let groups: Vec<Vec<(u64, u32)>> = u.same.values().filter(|v| v.len() > 1).cloned().collect();
+    let mut groups: Vec<Vec<(u64, u32)>> = u.same.values().filter(|v| v.len() > 1).cloned().collect();
+    groups.sort();
+    // undo / redo calls carry the classes (an element and its re-created copies, in order of creation): diagnostic context
+    // for known-finding patterns
+    if matches!(ev["call"]["a"].as_str(), Some("undo") | Some("redo")) {
+        ev["alias"] = json!(groups.iter().map(|g| g.iter().map(|x| json!([x.0, x.1])).collect::<Vec<_>>()).collect::<Vec<_>>());
+    }
     if !groups.is_empty() {
         let mut classes = HashMap::new();
         for (i, g) in groups.iter().enumerate() {
